@@ -129,3 +129,111 @@ func c14FarRecover(total uint64) string {
 	}
 	return fmt.Sprintf("after %d bytes (sequence numbers %d beyond the initial one) without a loss, three duplicate ACKs for +%d brought no fast retransmission of the earliest unacknowledged segment: the connection falls back to the retransmission timeout", sent, sent, acked-iss-1)
 }
+
+// c14FarRx: the receive direction. The raw peer sends `total` bytes in 32 KiB segments (every
+// 64th pair swapped, so the out-of-order queue and the SACK list are used all the way); the
+// application reads as data arrives. The bytes read must be exactly the bytes sent, in order,
+// and every cumulative ACK must equal what has arrived in order.
+func c14FarRx(total uint64) string {
+	r := NewRaw(false, 65535)
+	ScriptRand(1, 2, 3)
+	defer func() {
+		r.n.S.RemoveAddress(1, addrA4)
+		r.n.S.RemoveAddress(1, addrA6)
+		r.w.Settle()
+	}()
+	trim := func() {
+		r.w.mu.Lock()
+		r.w.All = nil
+		r.w.mu.Unlock()
+	}
+	must(r.n.S.SetTransportProtocolOption(tcp.ProtocolNumber, tcp.SACKEnabled(true)))
+	ls := r.n.NewSock(tcp.ProtocolNumber, ipv4.ProtocolNumber)
+	defer ls.EP.Close()
+	must(ls.EP.Bind(tcpip.FullAddress{Port: stackPort}, nil))
+	must(ls.EP.Listen(1))
+	const piss = uint32(4294900000) // the peer's numbers wrap early and again after 2^32 bytes
+	r.SendTCP(peerPort, stackPort, piss, 0, ref.SYN, 65535, ref.PadOpts(ref.OptMSS(32768), ref.OptWS(7), ref.OptSACKPerm()), nil)
+	var iss uint32
+	ok := false
+	for _, d := range r.Collect() {
+		if d != nil && d.TCP != nil && d.TCP.Flags == ref.SYN|ref.ACK {
+			iss, ok = d.TCP.Seq, true
+		}
+	}
+	if !ok {
+		return "no SYN-ACK"
+	}
+	r.SendTCP(peerPort, stackPort, piss+1, iss+1, ref.ACK, 65535, nil, nil)
+	r.Collect()
+	ep, _, err := ls.EP.Accept()
+	if err != nil {
+		return "accept: " + err.String()
+	}
+	defer ep.Close()
+	const seg = 32768
+	buf := make([]byte, seg)
+	fill := func(off uint64) []byte {
+		for i := 0; i < seg; i += 8 {
+			v := off + uint64(i)
+			buf[i], buf[i+1], buf[i+2], buf[i+3], buf[i+4], buf[i+5], buf[i+6], buf[i+7] = byte(v>>56), byte(v>>48), byte(v>>40), byte(v>>32), byte(v>>24), byte(v>>16), byte(v>>8), byte(v)
+		}
+		return buf
+	}
+	var read uint64
+	drain := func() string {
+		for {
+			v, _, err := ep.Read(nil)
+			if err != nil {
+				return ""
+			}
+			for i := 0; i+8 <= len(v); i += 8 {
+				want := read + uint64(i)
+				if (read+uint64(i))%8 == 0 {
+					got := uint64(v[i])<<56 | uint64(v[i+1])<<48 | uint64(v[i+2])<<40 | uint64(v[i+3])<<32 | uint64(v[i+4])<<24 | uint64(v[i+5])<<16 | uint64(v[i+6])<<8 | uint64(v[i+7])
+					if got != want {
+						return fmt.Sprintf("byte %d of the stream read by the application is not byte %d of what the peer sent (found the marker of offset %d)", want, want, got)
+					}
+				}
+			}
+			read += uint64(len(v))
+		}
+	}
+	send := func(off uint64) {
+		r.SendTCP(peerPort, stackPort, piss+1+uint32(off), iss+1, ref.ACK|ref.PSH, 65535, nil, fill(off))
+	}
+	lastAck := func() (uint32, bool) {
+		var a uint32
+		seen := false
+		for _, d := range r.Collect() {
+			if d != nil && d.TCP != nil && d.TCP.Flags&ref.ACK != 0 {
+				a, seen = d.TCP.Ack, true
+			}
+		}
+		trim()
+		return a, seen
+	}
+	var off uint64
+	for k := 0; off < total; k++ {
+		if k%64 == 63 && off+2*seg <= total {
+			send(off + seg) // out of order: the next one first
+			lastAck()
+			send(off)
+			off += 2 * seg
+		} else {
+			send(off)
+			off += seg
+		}
+		a, seen := lastAck()
+		if m := drain(); m != "" {
+			return m
+		}
+		if seen && a != piss+1+uint32(off) {
+			return fmt.Sprintf("after %d bytes arrived in order the stack acknowledges %d (expected %d)", off, a, piss+1+uint32(off))
+		}
+		if read != off {
+			return fmt.Sprintf("%d bytes arrived in order, the application could read %d", off, read)
+		}
+	}
+	return ""
+}
